@@ -371,6 +371,10 @@ def run(chk, tier):
             ok6, why6 = False, 'a round is not looked up in the flow registry at all when %s' % ('the cap is reached' if cap == [0] else 'cap=%s' % cap)
         # the flow found must receive the round
         flow_upd = [u for u in upd if u[1] != 'call:State::default_flow_id()']
+        # … and State::round_flow_id() — the API that says which flow the latest round went to — is set to that very flow
+        rf = [vshow(e[3]) for e in o.st.events if e[0] == 'write' and e[2] == 'round_flow_id']
+        if flow_upd and rf[-1:] != [flow_upd[0][1]]:
+            ok6, why6 = False, 'the round is folded into flow %s but round_flow_id becomes %s' % (flow_upd[0][1][:60], rf[-1:] or 'nothing (it keeps the flow of an earlier round)')
         if regs and not (len(flow_upd) == 1 and re.fullmatch(r'call:FlowRegistry::register\(.*\)', flow_upd[0][1])):
             ok6, why6 = False, 'the registered flow does not receive the round (%s)' % flow_upd
         if looks:
